@@ -8,13 +8,55 @@ UNIVERSE = [0, 32768, 512, 1, 256, 33280]   # same as spec/BankMapMC.tla Keys
 IDX_OK = [0, 1, 2, 63, 126, 127]
 IDX_BAD = [128, 129, 255, 256, 1000, 65536, 2147483647, -2147483647, -1]
 
+# ---------------------------------------------------------------------------------------------------------------------
+# Instrument values.  An instrument is the tuple of the 36 fields of OPN2_Instrument in the order of spec/BankMap.tla InsFields:
+# note_offset (int16), midi_velocity_offset (int8), percussion_key_number, inst_flags, fbalg, lfosens, 4 x 7 operator bytes,
+# delay_on_ms, delay_off_ms (uint16).  The flag byte is a dimension of its own: blank (2), pseudo-8op (1), both, reserved bits -
+# combined with every kind of voice data (none, ordinary, extreme) and written over every kind of earlier slot content.
+INS_LEN = 36
+FLAGS = [0, 0, 0, 2, 2, 2, 1, 3, 3, 4, 0x80, 0xFD, 0xFF]
+BLANK_INS = [0, 0, 0, 2, 0, 0] + [0] * 28 + [0, 0]
+
+def mk_ins(fl, d):
+    """spec/BankMapMC.tla MkIns"""
+    if d == 0:
+        return [0, 0, 0, fl, 0, 0] + [0] * 28 + [0, 0]
+    return [d * 5 - 12, d - 2, 35 + d, fl, (d * 9) % 64, (d * 5) % 48] + [(d * 11 + i * 7) % 128 for i in range(1, 29)] + [100 + d, 50 + d]
+
+def tok_ins(tok, fl=0):
+    """the ordinary instrument of a token (the shape harness/drive_bank.cpp insOfTok writes), with any flag byte"""
+    ops = []
+    for k in range(4):
+        ops += [(tok + k) % 16, (tok * (k + 3)) % 128, 0x1F, 0, (tok & 0x1F) if k == 1 else ((tok >> 5) & 0x1F) if k == 2 else 0, 0x0F, 0]
+    return [(tok % 25) - 12, (tok % 7) - 3 if tok >= 512 else 0, tok % 128, fl, tok % 64, tok % 48] + ops + [100 + tok, 50 + tok]
+
+def rand_ins(rng, fl=None):
+    """flag byte x voice data: no data / ordinary / random bytes / field extremes"""
+    if fl is None:
+        fl = rng.choice(FLAGS)
+    r = rng.random()
+    if r < 0.12:
+        v = mk_ins(fl, 0)
+        if rng.random() < 0.5: v[2] = rng.randrange(256)
+        return v
+    if r < 0.55:
+        return tok_ins(rng.randrange(1, 1000), fl)
+    if r < 0.8:
+        return [rng.randrange(-32768, 32768), rng.randrange(-128, 128), rng.randrange(256), fl, rng.randrange(256), rng.randrange(256)] + \
+               [rng.randrange(256) for _ in range(28)] + [rng.randrange(65536), rng.randrange(65536)]
+    b = lambda: rng.choice([0, 1, 0x7F, 0x80, 0xFF])
+    return [rng.choice([-32768, -1, 0, 1, 32767]), rng.choice([-128, -1, 0, 127]), b(), fl, b(), b()] + [b() for _ in range(28)] + \
+           [rng.choice([0, 1, 0x7FFF, 0x8000, 0xFFFF]), rng.choice([0, 1, 0x7FFF, 0x8000, 0xFFFF])]
+
 def mc_ops():
     ops = [{"o": "get", "key": k, "mode": "create"} for k in UNIVERSE]
     ops += [{"o": "get", "key": k, "mode": "creatert"} for k in UNIVERSE]
     ops += [{"o": "remove", "key": k} for k in UNIVERSE]
-    ops += [{"o": "setins", "key": UNIVERSE[i], "idx": 0, "tok": i + 1} for i in range(3)]
+    ops += [{"o": "setins", "key": UNIVERSE[0], "idx": 0, "ins": mk_ins(0, 1)}, {"o": "setins", "key": UNIVERSE[0], "idx": 0, "ins": mk_ins(2, 2)},
+            {"o": "setins", "key": UNIVERSE[1], "idx": 0, "ins": mk_ins(3, 3)}]
     ops += [{"o": "reserve", "n": 5}, {"o": "reserve", "n": 9}, {"o": "clear"}, {"o": "get", "key": 0, "mode": "find"}]
-    ops += [{"o": "setins", "key": UNIVERSE[0], "idx": 128, "tok": 9}]
+    ops += [{"o": "setins", "key": UNIVERSE[0], "idx": 128, "ins": mk_ins(0, 9)}]
+    ops += [{"o": "setins", "key": UNIVERSE[2], "idx": 0, "ins": mk_ins(255, 0)}]
     return ops
 
 def key(p, msb, lsb):
@@ -48,14 +90,16 @@ def random_history(rng, length=40):
         elif r < 0.90:
             # mostly valid indices; a quarter of the writes / reads address an instrument beyond the end of the bank
             idx = rng.choice([0, 1, 127]) if rng.random() < 0.75 else rng.choice(IDX_BAD)
-            h.append({"o": "setins" if rng.random() < 0.85 else "getins", "key": k, "idx": idx, "tok": rng.randrange(1, 1000)})
+            h.append({"o": "setins", "key": k, "idx": idx, "ins": rand_ins(rng)} if rng.random() < 0.85 else {"o": "getins", "key": k, "idx": idx})
         elif r < 0.95: h.append({"o": "reserve", "n": rng.choice([0, 3, 6, 12, 30, 64])})
         else:
             ks = rng.sample(pool, min(len(pool), rng.choice([2, 3, 6])))
             if not any(x & 32768 for x in ks): ks.append(key(1, 0, 0))
             if all(x & 32768 for x in ks): ks.append(key(0, 0, 0))
             ks = sorted(set(ks), key=lambda x: (x >= 32768, x))
-            h.append({"o": "load", "keys": [{"key": x, "tok": rng.choice([0, rng.randrange(1, 512)])} for x in ks], "bad": 1 if rng.random() < 0.2 else 0})
+            # instrument 0 of every bank of the file: none (all blank) or any instrument - the model (WopnV2Ins) says what the
+            # version-2 file format keeps of it
+            h.append({"o": "load", "keys": [({"key": x} if rng.random() < 0.4 else {"key": x, "ins": rand_ins(rng)}) for x in ks], "bad": 1 if rng.random() < 0.2 else 0})
     return h
 
 def exhaustive(depth, initcap=0):
@@ -87,22 +131,68 @@ def edge_index_history(rng, length=40):
     present = list(keys)
     for k in keys:
         for idx in rng.sample(IDX_OK, rng.choice([1, 2, 3])):
-            h.append({"o": "setins", "key": k, "idx": idx, "tok": rng.randrange(1, 1000)})
+            h.append({"o": "setins", "key": k, "idx": idx, "ins": rand_ins(rng)})
     bad = list(IDX_BAD) + [128, 128, 129]
     while len(h) < length:
         r = rng.random()
         k = rng.choice(keys)
         if r < 0.55:
-            h.append({"o": "setins", "key": k, "idx": rng.choice(bad), "tok": rng.randrange(1, 1000)})
+            h.append({"o": "setins", "key": k, "idx": rng.choice(bad), "ins": rand_ins(rng)})
         elif r < 0.65:
             h.append({"o": "getins", "key": k, "idx": rng.choice(bad + [127, 0])})
         elif r < 0.85:
-            h.append({"o": "setins", "key": k, "idx": rng.choice(IDX_OK), "tok": rng.randrange(1, 1000)})
+            h.append({"o": "setins", "key": k, "idx": rng.choice(IDX_OK), "ins": rand_ins(rng)})
         elif r < 0.92:
             h.append({"o": "remove", "key": k})
         else:
             h.append({"o": "get", "key": k, "mode": "create"})
     # every bank once more at the first index past its end, first to last and last to first
     for k in keys + keys[::-1]:
-        h.append({"o": "setins", "key": k, "idx": 128, "tok": rng.randrange(1, 1000)})
+        h.append({"o": "setins", "key": k, "idx": 128, "ins": rand_ins(rng)})
+    return h
+
+
+def flag_data_history(rng, length=30):
+    """Read-back = last written, over the dimension flags x data x previous slot content (C16): a few banks (created, created
+    in real time, or loaded from a bank file), and a few instrument indices that are written again and again - a sounding
+    instrument, then a blank-flagged one that carries voice data, pseudo-8op, reserved flag bits, extreme field values, the
+    all-zero instrument, the same value twice - so that every write lands on a slot whose content is untouched / sounding /
+    blank-with-data / loaded from a file.  Removal and re-creation of a bank (the slot is recycled: the new bank must be
+    blank whatever the old one held) and bank-file loads in between.  All banks x all used indices are read back after each call."""
+    nb = rng.choice([1, 2, 3])
+    keys = []
+    while len(keys) < nb:
+        k = key(rng.randrange(2), rng.choice([0, 1, 2, 127]), rng.choice([0, 1, 127]))
+        if k not in keys:
+            keys.append(k)
+    idxs = [0] + rng.sample(IDX_OK[1:], 2)
+    h = [{"o": "init", "probe": sorted(keys), "rbi": sorted(idxs)}]
+    if rng.random() < 0.3:
+        mel = [k for k in keys if not k & 32768] or [key(0, 0, 0)]
+        per = [k for k in keys if k & 32768] or [key(1, 0, 0)]
+        h.append({"o": "load", "keys": [{"key": x, "ins": rand_ins(rng)} for x in mel + per], "bad": 0})
+    for k in keys:
+        h.append({"o": "get", "key": k, "mode": rng.choice(["create", "create", "creatert"])})
+    while len(h) < length:
+        r = rng.random()
+        k = rng.choice(keys)
+        i = rng.choice(idxs)
+        if r < 0.30:      # sounding instrument, then a flagged instrument with other data on the same slot
+            h.append({"o": "setins", "key": k, "idx": i, "ins": rand_ins(rng, 0)})
+            h.append({"o": "setins", "key": k, "idx": i, "ins": rand_ins(rng, rng.choice([2, 2, 3, 1, 0xFF, 0x82]))})
+        elif r < 0.75:
+            h.append({"o": "setins", "key": k, "idx": i, "ins": rand_ins(rng)})
+        elif r < 0.80 and len(h) > 3:
+            prev = [o for o in h if o["o"] == "setins"]
+            if prev: h.append(dict(rng.choice(prev)))        # the same value once more (possibly on top of another one)
+        elif r < 0.85:
+            h.append({"o": "setins", "key": k, "idx": i, "ins": list(BLANK_INS)})
+        elif r < 0.92:
+            h.append({"o": "remove", "key": k})
+            h.append({"o": "get", "key": k, "mode": rng.choice(["create", "creatert"])})
+        elif r < 0.96:
+            h.append({"o": "getins", "key": k, "idx": i})
+        else:
+            ks = sorted(set(keys + [key(0, 0, 0), key(1, 0, 0)]), key=lambda x: (x >= 32768, x))
+            h.append({"o": "load", "keys": [({"key": x} if rng.random() < 0.3 else {"key": x, "ins": rand_ins(rng)}) for x in ks], "bad": 0})
     return h
